@@ -179,7 +179,7 @@ def restore_case(repo, orig, case, workdir, idx):
     damaged = dict(orig)
     for spec in case['specs']:
         apply_concrete(orig, damaged, spec)
-    objects = dict(orig) if mode == 'late' else damaged
+    objects = dict(orig) if mode in ('late', 'again') else damaged
     if repo['backend'] == 'local':
         from replicat.backends.local import Local
         root = os.path.join(workdir, f'repo-{idx}')
@@ -196,6 +196,11 @@ def restore_case(repo, orig, case, workdir, idx):
             objects.update(damaged)
     if mode == 'late':
         be = LateDamage(be, apply)
+    if mode == 'again':
+        res = run_again(repo, be, apply, case, workdir, idx)
+        if repo['backend'] == 'local':
+            shutil.rmtree(root, ignore_errors=True)
+        return res
     cache = os.path.join(workdir, f'cache-{idx}') if mode == 'twice' else None
     res = run_restore(repo, be, case, workdir, idx, cache)
     if mode == 'twice':
@@ -204,6 +209,44 @@ def restore_case(repo, orig, case, workdir, idx):
         shutil.rmtree(cache, ignore_errors=True)
     if repo['backend'] == 'local':
         shutil.rmtree(root, ignore_errors=True)
+    return res
+
+
+def run_again(repo, be, apply, case, workdir, idx):
+    """ONE long-lived Repository object: restore from the honest repository, then the damage happens, then the same
+    restore again.  The second restore is the one that is judged (the first must simply succeed)."""
+    import asyncio, contextlib, io
+    from pathlib import Path as P
+    from replicat.repository import Repository
+    d1, d2 = os.path.join(workdir, f'out-{idx}-first'), os.path.join(workdir, f'out-{idx}')
+    first = {}
+
+    async def go():
+        r = Repository(be, concurrent=4, quiet=True, cache_directory=None)
+        await r.unlock(password=unb64(repo['password']) if repo['password'] else None, key=unb64(repo['key']) if repo['key'] else None)
+        try:
+            await r.restore(snapshot_regex=case['target'], path=P(d1))
+            first['ok'] = True
+            apply()
+            return await r.restore(snapshot_regex=case['target'], path=P(d2))
+        finally:
+            with contextlib.suppress(Exception):
+                await r.close()
+    try:
+        with contextlib.redirect_stdout(io.StringIO()), contextlib.redirect_stderr(io.StringIO()):
+            value = asyncio.run(go())
+        o = repolab.Outcome('Ok', value)
+    except Exception as e:  # noqa: BLE001
+        o = repolab.Outcome(repolab.classify(e), None, '', '', f'{type(e).__name__}: {e}'[:300])
+    res = {'cls': o.cls, 'detail': o.detail, 'first_ok': bool(first.get('ok'))}
+    if o.cls == 'Malformed' and o.detail.startswith('ValueError') and 'once' in o.detail:
+        res['cls'] = 'DecryptFail'
+    if o.ok:
+        res['reported'] = sorted(o.value.files)
+        tree = repolab.read_tree(d2) if os.path.isdir(d2) else {}
+        res['tree'] = {p: [len(d), hashlib.sha256(d).hexdigest()] for p, d in tree.items()}
+    shutil.rmtree(d1, ignore_errors=True)
+    shutil.rmtree(d2, ignore_errors=True)
     return res
 
 
@@ -432,6 +475,9 @@ def gen_cases(rng, repo, n_sampled, n_pairs):
         if on_snapshot or i % 4 == 0:
             extra.append(dict(c, mode='twice'))
             extra.append(dict(c, mode='late'))
+        #   'again': restore, THEN the damage, then the same restore again on ONE long-lived Repository object
+        if on_snapshot or i % 3 == 0:
+            extra.append(dict(c, mode='again'))
     for t in targets:       # removal after the listing, by name and unfiltered
         extra.append({'specs': [{'k': 'delete', 'o': t}], 'target_loc': t, 'target': by_loc[t]['name'], 'mode': 'late'})
     extra.append({'specs': [{'k': 'delete', 'o': newest}], 'target_loc': newest, 'target': None, 'oracle_only': True, 'mode': 'late'})
@@ -538,7 +584,11 @@ def check_repo(ctx, rep: Report, repo, cases, with_model=True):
         if variant:
             rep.count('variant:' + variant)
         runs = [('', r)] + ([(' - SECOND run of the same command over the cache directory the first run left behind', r['second'])] if 'second' in r else [])
-        when = ' applied between the listing and the downloads' if variant == 'late' else ''
+        when = ' applied between the listing and the downloads' if variant == 'late' else \
+            (' applied after a first restore by the same long-lived Repository object' if variant == 'again' else '')
+        if variant == 'again' and not r.get('first_ok'):
+            rep.disagreements.append({'what': f'[{kind}] {mode}: the restore from the honest repository failed ({r["detail"][:120]})', 'replay': replay_obj(repo, case)})
+            continue
         violated = False
         for which, rr in runs:
             # ---- C: the oracle
